@@ -5,19 +5,19 @@ open Verif.Props.C03
 #print axioms entities_table_sound
 #print axioms entities_preserve_partial
 #print axioms entities_preserve_counterexample
-#print axioms entities_preserve_ctl_counterexample
 #print axioms entities_preserve_overflow_counterexample
-#print axioms ws_refine_partial
+#print axioms html_refs_preserved
+#print axioms attr_value_preserved
+#print axioms Verif.Proofs.HtmlGlue.glue_of_hasReferenceGlue
+#print axioms ws_refine
 #print axioms ws_words_preserved
+#print axioms ws_refine_counterexample
 #print axioms pre_untouched
 #print axioms raw_untouched
 #print axioms Verif.Spec.HtmlWs.refine_words
 #print axioms Verif.Spec.HtmlWs.refine_no_join
-#print axioms ws_refine_counterexample
-#print axioms omit_allowed_partial
-#print axioms omit_allowed_counterexample
-#print axioms omit_p_counterexample
+#print axioms omit_allowed
 #print axioms doc_tags_allowed
-#print axioms tag_classes_counterexample
+#print axioms tag_classes_ok
 #print axioms Verif.Proofs.HtmlOptional.p_tables_ok
-#print axioms attr_value_preserved
+#print axioms Verif.Proofs.HtmlOptional.omittable_finite
